@@ -537,3 +537,79 @@ def rule_cost_marks(ctx, rep, config="c-lib"):
         else:
             rep.violation("R13-costmark", "make_parse/user-setting-restored-before-pruning", "cost pruning decides between `all minimal translations' and `one of them' by the "
                           "one-parse flag, but runs while the flag is still forced to the all-parses value", where=fm[0].where(), witness=[fm[0].where()])
+
+
+NAME_FIELDS = ("yaep_anode.name", "_yaep_anode_name.name")   # two members of one union, same place
+
+
+def rule_release_nonnull(ctx, rep, config="c-lib"):
+    rep.rule("T4-nonnull", "what is handed to the caller's parse_free (through the file-scope pointer or through the parameter of yaep_free_tree's walkers) is a block, not "
+                           "NULL: the argument was dereferenced before on every path, or is tested against NULL, or is read from a member into which no function of the "
+                           "same API call (entry point reaching both) stores NULL")
+    p = ctx.prog(config)
+    entries = ["yaep_parse", "yaep_free_tree", "yaep_read_grammar", "yaep_parse_grammar", "yaep_free_grammar"]
+    reach = dict((e, p.reach(e)) for e in entries if e in p.m.functions)
+    # members that receive NULL, per function
+    null_stores = {}
+    for f in p.m.defined():
+        for s in f.all_insts():
+            if s.op == "store" and strip_casts(f, s.ops[0]).get("k") == "null":
+                fld = resolve_addr(f, s.ops[1]).last_field()
+                if fld:
+                    null_stores.setdefault(fld, []).append((f, s))
+    n = 0
+    for f in p.m.defined():
+        for i in f.calls():
+            if not (via_global(f, i, "parse_free") or via_param(f, i, "parse_free")):
+                continue
+            n += 1
+            rep.cover(p, [f.name])
+            key = "%s/release#%d" % (f.name, n)
+            a = strip_casts(f, i.args[0])
+            ai = f.inst(a)
+            ids = cast_aliases(f, a) if a.get("k") == "i" else set()
+            # dereferenced before on every path / tested
+            deref = False
+            for x in ids:
+                for u in f.uses().get(x, []):
+                    if u is i:
+                        continue
+                    is_d = (u.op == "load" and strip_casts(f, u.ops[0]).get("v") in ids) or (u.op == "store" and strip_casts(f, u.ops[1]).get("v") in ids) or \
+                           (u.op == "getelementptr" and any(w.op in ("load", "store") for w in f.uses().get(u.id, [])))
+                    if is_d and f.inst_dominates(u, i):
+                        deref = True
+            if a.get("k") == "a":
+                # a parameter: dereferenced in a dominating block?
+                for u in f.all_insts():
+                    if u.op in ("load", "getelementptr") and strip_casts(f, (u.ops[0] if u.op == "load" else u.d["base"])) == a and f.inst_dominates(u, i):
+                        deref = True
+            tested = False
+            for (c, pol) in _controlling_conditions(f, i.block.name):
+                if strip_casts(f, c.ops[1]).get("k") == "null" and c.d["pred"] in ("eq", "ne") and (c.d["pred"] == "ne") == pol:
+                    cv = strip_casts(f, c.ops[0])
+                    if cv == a or cv.get("v") in ids:
+                        tested = True
+                    else:
+                        # a reload of the same place
+                        l1, l2 = f.inst(cv), ai
+                        if l1 is not None and l2 is not None and l1.op == "load" and l2.op == "load":
+                            p1, p2 = resolve_addr(f, l1.ops[0]), resolve_addr(f, l2.ops[0])
+                            if p1.root == p2.root and p1.steps == p2.steps:
+                                tested = True
+            if deref or tested:
+                rep.ok("T4-nonnull", key, sample={"call": i.where(), "why": "dereferenced before" if deref else "tested against NULL"})
+                continue
+            lp = loaded_from(f, a)
+            fld = lp.last_field() if lp is not None else None
+            flds = NAME_FIELDS if fld in NAME_FIELDS else ((fld,) if fld else ())
+            culprit = None
+            for fl in flds:
+                for (g, s_) in null_stores.get(fl, []):
+                    if any(f.name in r and g.name in r for r in reach.values()):
+                        culprit = (g, s_)
+            if culprit is None:
+                rep.ok("T4-nonnull", key, sample={"call": i.where(), "why": "no NULL is stored into %s during the same API call" % (fld or "the source")})
+            else:
+                rep.violation("T4-nonnull", key, "the caller's parse_free is called with `%s', which %s sets to NULL (%s) during the same API call, without a test: parse_free "
+                              "receives NULL, which parse_alloc never returned" % (fld, culprit[0].name, culprit[1].where()), where=i.where(), witness=[culprit[1].where(), i.where()])
+    rep.floor("T4-nonnull", "release sites", n, 7)
